@@ -180,7 +180,7 @@ func smallCase(code uint64) *Case {
 	root := int(code % 8)
 	gi := int(code / 8)
 	g := SmallGraphs()[gi]
-	c := &Case{Stream: "small", Graph: g.Encode(), Root: root, MapRoot: -1, FailNode: -1,
+	c := &Case{Stream: "small", Graph: g.Encode(), Root: root, MapRoot: -1, FailNode: -1, PreTag: -1,
 		K: 1 + (gi+root+mask)%3, Mode: []string{"g", "t", "r"}[(gi+mask)%3], Src: "mem", Dst: []string{"mem", "oci"}[dst],
 		SrcRef: "v1", RefFetch: (gi+root)%2 == 0, Seed: uint64(gi)*7919 + uint64(mask), Fast: true,
 		CbSet: []string{"11111", "00000", "10100", "01011"}[(gi+root+mask)%4]}
